@@ -265,9 +265,23 @@ type %[1]sOut struct {
 }
 
 // famUpdate: update methods with zero-value skipping (C10).
-func famUpdate(r *rng.R, id int) *famOut {
+func famUpdate(r *rng.R, id int) *famOut { return famUpdateOpt(r, id, false) }
+
+// famUpdateOpt: with uncomparable=true some instances carry a struct field that Go cannot compare (slice member): the
+// struct zero guard emitted for it does not compile (known finding D7), so that variant is for generation-only campaigns.
+func famUpdateOpt(r *rng.R, id int, uncomparable bool) *famOut {
 	p := fmt.Sprintf("U%d", id)
 	f := &famOut{}
+	// a comparable struct with an array member, identical on both sides: convertible only with skipCopySameType
+	withKey := r.Chance(35)
+	extra := ""
+	if withKey {
+		extra += fmt.Sprintf("\tK  %sKey\n", p)
+	}
+	withUncmp := uncomparable && r.Chance(50)
+	if withUncmp {
+		extra += fmt.Sprintf("\tQ  %sUncmp\n", p)
+	}
 	f.Types = fmt.Sprintf(`type %[1]sIn struct {
 	V  int
 	W  string
@@ -276,10 +290,18 @@ func famUpdate(r *rng.R, id int) *famOut {
 	M  map[string]int
 	N  %[1]sNest
 	B  bool
-}
+%[2]s}
 type %[1]sNest struct {
 	A int
 	S string
+}
+type %[1]sKey struct {
+	ID  [4]uint8
+	Ver int
+}
+type %[1]sUncmp struct {
+	L []string
+	N int
 }
 type %[1]sOut struct {
 	V    int
@@ -290,15 +312,26 @@ type %[1]sOut struct {
 	N    %[1]sNest
 	B    bool
 	Keep string
-}
-`, p)
+%[2]s}
+`, p, extra)
 	var b strings.Builder
 	b.WriteString("// goverter:converter\n")
 	flags := []string{"update:ignoreZeroValueField", "update:ignoreZeroValueField:basic", "update:ignoreZeroValueField:struct", "update:ignoreZeroValueField:nillable", "skipCopySameType"}
 	for _, fl := range flags {
+		if withKey && fl == "skipCopySameType" {
+			b.WriteString("// goverter:skipCopySameType\n")
+			continue
+		}
+		if withKey && fl == "update:ignoreZeroValueField:struct" && r.Chance(60) {
+			b.WriteString("// goverter:" + fl + "\n")
+			continue
+		}
 		if r.Chance(25) {
 			b.WriteString("// goverter:" + fl + rng.Pick(r, []string{"", " yes", " no"}) + "\n")
 		}
+	}
+	if withKey {
+		flags = flags[:4] // skipCopySameType stays on for every method
 	}
 	b.WriteString("type " + p + "C interface {\n")
 	n := 1 + r.Intn(3)
@@ -502,6 +535,134 @@ func famEnum(r *rng.R, id int) *famOut {
 		}
 		b.WriteString(fmt.Sprintf("\t%s(source %sWa) %s\n", names[0], p, res(p+"WaT")))
 		b.WriteString(fmt.Sprintf("\t%s(source %sWb) %s\n", names[1], p, res(p+"WbT")))
+	}
+	b.WriteString("}\n\n")
+	f.add(p+"C", b.String())
+	return f
+}
+
+// famMethods: methods of the source struct as field sources (C05 selection, C07 error paths, C14 struct-method signatures).
+func famMethods(r *rng.R, id int) *famOut {
+	p := fmt.Sprintf("M%d", id)
+	f := &famOut{}
+	withCtx := r.Chance(35)
+	fallible := map[string]bool{"Label": r.Chance(70), "NTitle": r.Chance(40), "Via": r.Chance(40), "Birth": r.Chance(75), "NBirth": r.Chance(60)}
+	f.Types = fmt.Sprintf(`type %[1]sIn struct {
+	Name    string
+	Age     int
+	Nested  %[1]sNested
+	PNested *%[1]sNested
+	PP      **%[1]sNested
+}
+type %[1]sNested struct {
+	Street string
+	N      int
+}
+type %[1]sB struct {
+	Stamp string
+}
+type %[1]sOut struct {
+	Title%[1]s string
+	Label    string
+	NTitle   string
+	PTitle   *string
+	Via      %[1]sB
+	Ctx      string
+	Age      int
+}
+`, p)
+	var cb strings.Builder
+	meth := func(recv, name string, fallible bool, ctx bool) {
+		params, args := "", "s"
+		if ctx {
+			params, args = "ctxTag string", "s, ctxTag"
+		}
+		if fallible {
+			fmt.Fprintf(&cb, "func (s %[1]s) %[2]s(%[3]s) (string, error) {\n\tif rt.Fails(%[2]q, s) {\n\t\treturn \"\", rt.Boom(%[2]q)\n\t}\n\treturn rt.Stamp(%[2]q, %[4]s), nil\n}\n\n", recv, name, params, args)
+			f.FailOn = append(f.FailOn, [2]string{name, "poison"})
+		} else {
+			fmt.Fprintf(&cb, "func (s %[1]s) %[2]s(%[3]s) string {\n\treturn rt.Stamp(%[2]q, %[4]s)\n}\n\n", recv, name, params, args)
+		}
+	}
+	meth(p+"In", "Title"+p, false, false)
+	meth(p+"In", "Label"+p, fallible["Label"], false)
+	meth(p+"Nested", "NTitle"+p, fallible["NTitle"], false)
+	meth(p+"In", "CtxTitle"+p, false, true)
+	// used only as the source of `map … | FUNC`, so that their failure is not masked by an earlier field
+	meth(p+"In", "Birth"+p, fallible["Birth"], false)
+	meth(p+"Nested", "NBirth"+p, fallible["NBirth"], false)
+	if fallible["Via"] {
+		fmt.Fprintf(&cb, "func Via%[1]s(s string) (%[1]sB, error) {\n\tif rt.Fails(%[2]q, s) {\n\t\treturn %[1]sB{}, rt.Boom(%[2]q)\n\t}\n\treturn %[1]sB{Stamp: rt.Stamp(%[2]q, s)}, nil\n}\n\n", p, "Via"+p)
+	} else {
+		fmt.Fprintf(&cb, "func Via%[1]s(s string) %[1]sB {\n\treturn %[1]sB{Stamp: rt.Stamp(%[2]q, s)}\n}\n\n", p, "Via"+p)
+	}
+	f.Custom = cb.String()
+	var b strings.Builder
+	b.WriteString("// goverter:converter\n")
+	if wm := rng.Pick(r, wrapModes); wm != "" {
+		b.WriteString("// goverter:" + wm + "\n")
+	}
+	b.WriteString("type " + p + "C interface {\n")
+	var lines []string
+	opt := func(pc int, l, alt string) {
+		if r.Chance(pc) {
+			lines = append(lines, l)
+		} else if alt != "" {
+			lines = append(lines, alt)
+		}
+	}
+	// Title<p> is matched to the method of the same name automatically
+	opt(90, "map Label"+p+" Label", "ignore Label")
+	opt(80, "map Nested.NTitle"+p+" NTitle", "ignore NTitle")
+	switch r.Intn(4) {
+	case 0:
+		lines = append(lines, "ignore PTitle")
+	case 1:
+		lines = append(lines, "map PP.NTitle"+p+" PTitle")
+	default:
+		lines = append(lines, "map PNested.NTitle"+p+" PTitle")
+	}
+	// a method result handed to a custom function: the fallible method under `| FUNC` is the interesting case
+	via := rng.Pick(r, []string{"Birth" + p, "Birth" + p, "Title" + p, "Nested.NBirth" + p, "PNested.NTitle" + p})
+	if strings.HasPrefix(via, "PNested") {
+		lines = append(lines, "ignore Via") // FUNC takes a string, the guarded path yields *string
+	} else {
+		opt(85, "map "+via+" Via | Via"+p, "ignore Via")
+	}
+	if withCtx {
+		lines = append(lines, "map CtxTitle"+p+" Ctx")
+	} else {
+		opt(92, "ignore Ctx", "map CtxTitle"+p+" Ctx")
+	}
+	anyFallible := fallible["Label"] || fallible["NTitle"] || fallible["Via"] || fallible["Birth"] || fallible["NBirth"]
+	ctxP := ""
+	if withCtx {
+		ctxP = ", ctxTag string"
+	}
+	res := func(t string) string {
+		if anyFallible && r.Chance(90) || r.Chance(15) {
+			return "(" + t + ", error)"
+		}
+		return t
+	}
+	for _, l := range lines {
+		b.WriteString("\t// goverter:" + l + "\n")
+	}
+	if withCtx {
+		b.WriteString("\t// goverter:context ctxTag\n")
+	}
+	b.WriteString("\tConvert(source " + p + "In" + ctxP + ") " + res(p+"Out") + "\n")
+	if r.Chance(60) {
+		if withCtx {
+			b.WriteString("\t// goverter:context ctxTag\n")
+		}
+		b.WriteString("\tList(source []" + p + "In" + ctxP + ") " + res("[]"+p+"Out") + "\n")
+	}
+	if r.Chance(40) {
+		if withCtx {
+			b.WriteString("\t// goverter:context ctxTag\n")
+		}
+		b.WriteString("\tMapOf(source map[string]*" + p + "In" + ctxP + ") " + res("map[string]*"+p+"Out") + "\n")
 	}
 	b.WriteString("}\n\n")
 	f.add(p+"C", b.String())
